@@ -18,7 +18,7 @@ var serveExplain = map[string]string{
 	"C14": "The sequence of ConnState values the serve loop reports, decided on every path of the loop as an automaton: StateActive only follows New/Idle, StateIdle only follows Active, the handler and the response write happen in Active, an iteration that continues ends in Idle, and StateActive is only reported on a path on which a read of at least one byte succeeded; (R3) every function that runs the serve loop itself and reports states (ServeConn) reports StateNew before serving and, on every path to its return after StateNew was reported (served or turned away), exactly one terminal state - StateHijacked exactly when the loop returned errHijacked, StateClosed otherwise. Not decided: the reports made by the worker pool (C13.R2 decides its terminal action) and cross-goroutine ordering.",
 	"C15": "Structural necessary conditions of graceful shutdown inside the serve loop, on every path: the per-connection idle marker is zero while the handler runs (so Shutdown's idle closer cannot close a busy connection), it is set non-zero after the response before the connection waits for the next request, the stop flag is tested after every response, and (R5) a response that was written into the connection writer is flushed before the writer is dropped whenever the serve function ends with a nil result (shutdown, client stopped sending) - so no answered request loses its response on a graceful end; (R6) in the shutdown code the Done channel is closed only under a false 'already closed' flag and the flag is raised after it, and wherever the channel reference is dropped the flag is lowered again on every path - otherwise the next Serve/Shutdown cycle of the same Server never closes its requests' Done channels; (E1) the open-connection counter Shutdown waits on is exact: ServeConn, serveConnCounted, serveConnCleanup and Serve each have the net effect on it that their contract states, on every path - a connection that is counted down twice lets Shutdown return nil while a handler is still running. Not decided: Shutdown's poll loop and listener handling, liveness, interleavings.",
 	"C16": "Structural necessary conditions for timed-out handlers, on every path of the serve loop's timeoutResponse != nil branch: the response is written from a freshly acquired ctx into which the stored response was copied (R1); the timed-out ctx is never released to the pool by the loop (R2); no per-request field the loop stored on the old ctx is read from the fresh one (R3); (R6) the concurrency slot a timeout wrapper takes from Server.concurrencyCh is taken without blocking (429 otherwise), and it is given back only by code that has run the wrapped handler to its end - in the goroutine that calls it, after the call - exactly once; never by the wrapper's own frame, which returns when the timeout fires while the handler still runs; the semaphore field is read only by code that creates the channel when it is missing (a nil channel would turn every call into a 429); (R7) every bookkeeping field the serve function keeps on the ctx (connection id, connection time, request number, request time) is assigned on every path from each point where the ctx object is acquired or replaced to the handler dispatch, so requests served after a timed-out one see them. Not decided: what the late handler does with the old ctx, scheduling.",
-	"C17": "Structural necessary conditions of connection hijacking, on every path: the response is written and flushed before the hand-off unless HijackSetNoResponse is in effect (R1); after 'go hijackConnHandler' the serve function performs no I/O on the connection and releases neither ctx nor the handed-over reader (R3); it returns errHijacked exactly on hand-off paths (R4); hijackConnHandler closes the connection after the user's handler unless KeepHijackedConns and releases the ctx (R5); hijack state a handler put on the ctx without hijacking does not survive into a later request of the connection (R6); every method of the connection wrapper handed to the hijack handler takes data off the connection only through the buffered reader that still holds what the client sent with the hijacking request, never from the raw connection (R7). Not decided: byte-exact hand-over of buffered data, callers' reaction to errHijacked.",
+	"C17": "Structural necessary conditions of connection hijacking, on every path: the response is written and flushed before the hand-off unless HijackSetNoResponse is in effect (R1); after 'go hijackConnHandler' the serve function performs no I/O on the connection and releases neither ctx nor the handed-over reader (R3); it returns errHijacked exactly on hand-off paths (R4); hijackConnHandler closes the connection after the user's handler unless KeepHijackedConns and releases the ctx (R5); hijack state a handler put on the ctx without hijacking does not survive into a later request of the connection (R6); every method of the connection wrapper handed to the hijack handler takes data off the connection only through the buffered reader that still holds what the client sent with the hijacking request, never from the raw connection (R7); hijackConnHandler does not recycle the ctx while a connection the handler kept (KeepHijackedConns) still reads through it, which is the case under ReduceMemoryUsage, where the buffered reader reads through a field of the ctx (R8). Not decided: byte-exact hand-over of buffered data, callers' reaction to errHijacked.",
 }
 
 func init() {
@@ -107,8 +107,36 @@ func hijackHandlerRule(p *Prog, r *Report) {
 			}
 		}
 	}
+	var rmuLoads []ssa.Value
+	for _, b := range fn.Blocks {
+		for _, in := range b.Instrs {
+			if u, ok := in.(*ssa.UnOp); ok {
+				if _, fv := loadedField(u); fv != nil && fv.Name() == "ReduceMemoryUsage" {
+					rmuLoads = append(rmuLoads, u)
+				}
+			}
+		}
+	}
+	// premise of the ctx rule below: under ReduceMemoryUsage the connection's buffered reader reads through a field of
+	// the ctx (acquireByteReader resets it onto &ctx.fbr), so a kept connection keeps the ctx in use
+	readsThroughCtx := false
+	if abr := p.Func("acquireByteReader"); abr != nil {
+		allCalls(abr, func(b *ssa.BasicBlock, c ssa.CallInstruction) {
+			if f := c.Common().StaticCallee(); f != nil && f.Name() == "Reset" && recvTypeName(f) == "Reader" {
+				for _, a := range c.Common().Args {
+					if mi, ok := a.(*ssa.MakeInterface); ok {
+						a = mi.X
+					}
+					if fa, ok := a.(*ssa.FieldAddr); ok && typeNameOf(fa.X) == "RequestCtx" {
+						readsThroughCtx = true
+					}
+				}
+			}
+		})
+	}
 	nret, bad := 0, 0
-	var wit []string
+	badCtx, badKept := 0, 0
+	var wit, witCtx []string
 	var pos string
 	x := NewExplorer(p, fn, Hooks{
 		Instr: func(x *Explorer, st *State, in ssa.Instruction) {
@@ -147,9 +175,32 @@ func hijackHandlerRule(p *Prog, r *Report) {
 					pos = p.Pos(ret.Pos())
 				}
 			}
+			rmu := Unknown
+			for _, k := range rmuLoads {
+				if a := x.Eval(st, k); a != Unknown {
+					rmu = a
+				}
+			}
+			// the ctx: recycled, unless a kept connection still reads through it
+			keptThroughCtx := readsThroughCtx && keep == True && rmu == True
+			if !st.Has(bCtxReleased) && !keptThroughCtx {
+				badCtx++
+				if witCtx == nil {
+					witCtx = x.Path(st)
+				}
+			}
+			if st.Has(bCtxReleased) && readsThroughCtx && keep == True && rmu != False {
+				badKept++
+				if witCtx == nil {
+					witCtx = x.Path(st)
+				}
+			}
 		},
 	})
 	for _, k := range keepLoads {
+		x.Track(k)
+	}
+	for _, k := range rmuLoads {
 		x.Track(k)
 	}
 	x.Run(nil)
@@ -157,9 +208,11 @@ func hijackHandlerRule(p *Prog, r *Report) {
 	r.Floor("R5", "KeepHijackedConns tests in hijackConnHandler", len(keepLoads), 1)
 	r.Check("R5", "hijackConnHandler closes the connection after the handler unless KeepHijackedConns", bad == 0 && nret > 0, pos,
 		fmt.Sprintf("%d of %d explored return arrivals leave the connection open although KeepHijackedConns is not known to be true (hijackConn.Close is a no-op in that mode, so nobody else closes it)", bad, nret), wit...)
-	// the ctx handed to the goroutine is released exactly there
-	hit, path := reachAvoiding(fn, nil, isReturn, callTo(fRelCtx), nil)
-	r.Check("R5", "hijackConnHandler releases the ctx it was handed on every path", hit == nil, p.Pos(fn.Pos()), "a return is reachable without releaseCtx: the ctx taken over from the serve loop leaks", blocksString(p, path)...)
+	// the ctx handed to the goroutine is released exactly there - except while a kept connection still reads through it
+	r.Check("R5", "hijackConnHandler releases the ctx it was handed, unless a kept connection still reads through it", badCtx == 0 && nret > 0, p.Pos(fn.Pos()),
+		fmt.Sprintf("%d of %d explored return arrivals leave without releaseCtx although no kept connection uses the ctx: the ctx taken over from the serve loop is never recycled", badCtx, nret), witCtx...)
+	r.Check("R8", "hijackConnHandler does not recycle a ctx that a kept hijacked connection still reads through", badKept == 0 && nret > 0, p.Pos(fn.Pos()),
+		fmt.Sprintf("%d of %d explored return arrivals release the ctx with KeepHijackedConns set and ReduceMemoryUsage not known to be off (the buffered reader reads through a field of the ctx: %v): the connection the handler kept then reads through a recycled ctx - a nil dereference, or another connection's bytes", badKept, nret, readsThroughCtx), witCtx...)
 }
 
 // C11.E7: every field of every per-request object is cleared by its reset
